@@ -48,6 +48,15 @@ pub enum Recipe {
     MulLimbsCt(Vec<u64>, Box<Recipe>),
     /// constant-time selection between two elements (min: ConditionallySelectable; ark: plain choice)
     Select(bool, Box<Recipe>, Box<Recipe>),
+    /// a + b / a - b / -a / 2a / a + b + c through the i-th operator, method, trait or iterator form
+    /// of the configuration that computes it (C04's catalogue: owned / borrowed / assigning, mixed
+    /// affine-projective, Sum over exact and lazy iterators, ...): every internal representation the
+    /// public forms can produce, not only the one `+` yields
+    AddVia(u8, Box<Recipe>, Box<Recipe>),
+    SubVia(u8, Box<Recipe>, Box<Recipe>),
+    NegVia(u8, Box<Recipe>),
+    DoubleVia(u8, Box<Recipe>),
+    Sum3Via(u8, Box<Recipe>, Box<Recipe>, Box<Recipe>),
 }
 
 use Recipe::*;
@@ -62,8 +71,9 @@ impl Recipe {
     pub fn kids(&self) -> Vec<&Recipe> {
         match self {
             Identity | Default | Generator | Elligator(_) | Hash(..) | MulGen(_) | DecodeOr(_) | FromX(_) => vec![],
-            ReDecode(a) | Neg(a) | Double(a) | Mul(_, a) | MulLimbs(_, a) | MulLimbsCt(_, a) | Torsion(a) | MinusOneTimes(a) | AffineRoundTrip(a) => vec![a],
-            Add(a, b) | Sub(a, b) | AddSub(a, b) | Select(_, a, b) => vec![a, b],
+            ReDecode(a) | Neg(a) | Double(a) | Mul(_, a) | MulLimbs(_, a) | MulLimbsCt(_, a) | Torsion(a) | MinusOneTimes(a) | AffineRoundTrip(a) | NegVia(_, a) | DoubleVia(_, a) => vec![a],
+            Add(a, b) | Sub(a, b) | AddSub(a, b) | Select(_, a, b) | AddVia(_, a, b) | SubVia(_, a, b) => vec![a, b],
+            Sum3Via(_, a, b, c) => vec![a, b, c],
         }
     }
     pub fn size(&self) -> usize {
@@ -86,10 +96,11 @@ impl Recipe {
             DecodeOr(sv) => c.decode_int(&sv.0).unwrap_or_else(|_| c.identity()),
             FromX(x) => point_from_x(&x.0).unwrap_or_else(|| c.identity()),
             ReDecode(_) => c.decode_int(&c.encode_spec(&kids[0].pt)).expect("model: encodings of valid points decode"),
-            Add(..) => c.add(&kids[0].pt, &kids[1].pt),
-            Sub(..) => c.sub(&kids[0].pt, &kids[1].pt),
-            Neg(_) => c.neg(&kids[0].pt),
-            Double(_) => c.dbl(&kids[0].pt),
+            Add(..) | AddVia(..) => c.add(&kids[0].pt, &kids[1].pt),
+            Sub(..) | SubVia(..) => c.sub(&kids[0].pt, &kids[1].pt),
+            Neg(_) | NegVia(..) => c.neg(&kids[0].pt),
+            Double(_) | DoubleVia(..) => c.dbl(&kids[0].pt),
+            Sum3Via(..) => c.add(&c.add(&kids[0].pt, &kids[1].pt), &kids[2].pt),
             Mul(k, _) => c.mul(&k.0, &kids[0].pt),
             MulLimbs(l, _) | MulLimbsCt(l, _) => c.mul(&crate::api::int_of_limbs(l), &kids[0].pt),
             Select(choice, ..) => kids[if *choice { 1 } else { 0 }].pt.clone(),
@@ -126,6 +137,11 @@ impl Recipe {
                     Err(e) => panic!("{}: decoding the model's canonical encoding {} failed: {:?}", B::NAME, hex::encode(bytes), e),
                 }
             }
+            AddVia(i, ..) => B::op_form(crate::props::c04::Op::Add, *i, &k(0), &k(1), &B::identity()),
+            SubVia(i, ..) => B::op_form(crate::props::c04::Op::Sub, *i, &k(0), &k(1), &B::identity()),
+            NegVia(i, _) => B::op_form(crate::props::c04::Op::Neg, *i, &k(0), &B::identity(), &B::identity()),
+            DoubleVia(i, _) => B::op_form(crate::props::c04::Op::Dbl, *i, &k(0), &B::identity(), &B::identity()),
+            Sum3Via(i, ..) => B::op_form(crate::props::c04::Op::Sum3, *i, &k(0), &k(1), &k(2)),
             Add(..) => B::add(&k(0), &k(1)),
             Sub(..) => B::sub(&k(0), &k(1)),
             Neg(_) => B::neg(&k(0)),
@@ -163,14 +179,19 @@ impl Recipe {
         let rebuild = |i: usize, new: Recipe| -> Recipe {
             let mut c = self.clone();
             match &mut c {
-                ReDecode(a) | Neg(a) | Double(a) | Mul(_, a) | MulLimbs(_, a) | MulLimbsCt(_, a) | Torsion(a) | MinusOneTimes(a) | AffineRoundTrip(a) => **a = new,
-                Add(a, b) | Sub(a, b) | AddSub(a, b) | Select(_, a, b) => {
+                ReDecode(a) | Neg(a) | Double(a) | Mul(_, a) | MulLimbs(_, a) | MulLimbsCt(_, a) | Torsion(a) | MinusOneTimes(a) | AffineRoundTrip(a) | NegVia(_, a) | DoubleVia(_, a) => **a = new,
+                Add(a, b) | Sub(a, b) | AddSub(a, b) | Select(_, a, b) | AddVia(_, a, b) | SubVia(_, a, b) => {
                     if i == 0 {
                         **a = new
                     } else {
                         **b = new
                     }
                 }
+                Sum3Via(_, a, b, c) => match i {
+                    0 => **a = new,
+                    1 => **b = new,
+                    _ => **c = new,
+                },
                 _ => {}
             }
             c
@@ -238,7 +259,12 @@ pub fn recipe_depth(depth: u32) -> BoxedStrategy<Recipe> {
                 2 => inner.clone().prop_map(|a| ReDecode(Box::new(a))),
                 1 => (gen::scalar_limbs(), inner.clone()).prop_map(|(k, a)| MulLimbsCt(k, Box::new(a))),
                 1 => (any::<bool>(), inner.clone(), inner.clone()).prop_map(|(c, a, b)| Select(c, Box::new(a), Box::new(b))),
-                2 => (inner.clone(), inner).prop_map(|(a, b)| AddSub(Box::new(a), Box::new(b))),
+                2 => (inner.clone(), inner.clone()).prop_map(|(a, b)| AddSub(Box::new(a), Box::new(b))),
+                3 => (any::<u8>(), inner.clone(), inner.clone()).prop_map(|(i, a, b)| AddVia(i, Box::new(a), Box::new(b))),
+                2 => (any::<u8>(), inner.clone(), inner.clone()).prop_map(|(i, a, b)| SubVia(i, Box::new(a), Box::new(b))),
+                1 => (any::<u8>(), inner.clone()).prop_map(|(i, a)| NegVia(i, Box::new(a))),
+                1 => (any::<u8>(), inner.clone()).prop_map(|(i, a)| DoubleVia(i, Box::new(a))),
+                1 => (any::<u8>(), inner.clone(), inner.clone(), inner).prop_map(|(i, a, b, c)| Sum3Via(i, Box::new(a), Box::new(b), Box::new(c))),
             ]
         })
         .boxed()
